@@ -17,8 +17,9 @@ type Job struct {
 	InMemory bool `json:"inMemory,omitempty"`
 	// ViaCore: build through core.NewJApiCore(...).BuildCatalog() instead of kit (C19).
 	ViaCore bool `json:"viaCore,omitempty"`
-	// Banned directive keywords (C19).
-	Banned []string `json:"banned,omitempty"`
+	// Banned directive keywords (C19). BannedSplit: pass every kind as its own WithBannedDirectives option.
+	Banned      []string `json:"banned,omitempty"`
+	BannedSplit bool     `json:"bannedSplit,omitempty"`
 	// Ops to run after the build, in order: json, jsonindent, openapi, openapiindent, title.
 	Ops []string `json:"ops,omitempty"`
 	// OpsOnError: run Ops even when the build returned an error (never by default).
@@ -38,6 +39,8 @@ type Job struct {
 	// Probes (C13): each is scanned completely; reported is the first lexeme that begins at or after ProbeOffset and the error, if any.
 	Probes      [][]byte `json:"probes,omitempty"`
 	ProbeOffset int      `json:"probeOffset,omitempty"`
+	// Fresh: run this job in a worker process that has not executed any job yet.
+	Fresh bool `json:"fresh,omitempty"`
 	// Conc describes a concurrent job (C18).
 	Conc *ConcJob `json:"conc,omitempty"`
 	// Seq: operation sequences for C16; each is run on a fresh build of the project.
@@ -45,6 +48,9 @@ type Job struct {
 }
 
 type ConcJob struct {
+	// ColdStart: the concurrent phase comes first, in a process that has not used the library yet (the sequential
+	// baseline is computed afterwards), so that lazily initialised package state is first touched concurrently.
+	ColdStart  bool          `json:"coldStart,omitempty"`
 	Projects   []ConcProject `json:"projects"`
 	Goroutines int           `json:"goroutines"`
 	Rounds     int           `json:"rounds"`
